@@ -13,7 +13,13 @@ import (
 var (
 	offset atomic.Int64 // nanoseconds added to the real clock
 	calls  atomic.Int64
+	tick   atomic.Int64 // nanoseconds the clock jumps forward after every read
 )
+
+// SetAutoTick makes the clock jump forward by d after every read: two reads of the clock inside one
+// operation then differ by at least d (a second, a day), so code that reads the clock twice where it
+// should use one instant becomes observable.
+func SetAutoTick(d time.Duration) { tick.Store(int64(d)) }
 
 // SetOffset moves the clock seen by the code under test to real time + d.
 func SetOffset(d time.Duration) { offset.Store(int64(d)) }
@@ -26,7 +32,11 @@ func Calls() int64 { return calls.Load() }
 
 func Now() time.Time {
 	calls.Add(1)
-	return time.Now().Add(time.Duration(offset.Load()))
+	t := time.Now().Add(time.Duration(offset.Load()))
+	if d := tick.Load(); d != 0 {
+		offset.Add(d)
+	}
+	return t
 }
 func Since(t time.Time) time.Duration { return Now().Sub(t) }
 func Until(t time.Time) time.Duration { return t.Sub(Now()) }
